@@ -132,6 +132,25 @@ def isPrefixOfLonger (cfg : Cfg) (p : Text) : Bool :=
   if isCprPrefix cfg.isDigit p || isMousePrefix cfg.isDigit p then true
   else cfg.table.any fun kv => !kv.2.isEmpty && p.isPrefixOf kv.1 && kv.1 != p
 
+/-- `_IS_PREFIX_OF_LONGER_MATCH_CACHE`: the dict behind `_IsPrefixOfLongerMatchCache` as state
+    (most recent entry first) -/
+abbrev PCache := List (Text × Bool)
+
+/-- `cache[prefix]`: a stored entry is returned as it is; `__missing__` computes the predicate,
+    stores it (`self[prefix] = result`) and returns it -/
+def PCache.lookup (cfg : Cfg) (c : PCache) (p : Text) : Bool × PCache :=
+  match c.find? (fun kv => kv.1 == p) with
+  | some kv => (kv.2, c)
+  | none => (isPrefixOfLonger cfg p, (p, isPrefixOfLonger cfg p) :: c)
+
+/-- a run of lookups: the answers, and the final dict -/
+def PCache.lookups (cfg : Cfg) : PCache → List Text → List Bool × PCache
+  | c, [] => ([], c)
+  | c, p :: ps =>
+    let (b, c1) := PCache.lookup cfg c p
+    let (bs, c2) := PCache.lookups cfg c1 ps
+    (b :: bs, c2)
+
 /-! ### parser state -/
 
 structure St where
@@ -156,6 +175,12 @@ def callHandler (cfg : Cfg) : St → List String → Text → St
     let s' := if k == cfg.pasteKey then { s with inPaste := true, paste := [] }
               else { s with out := s.out ++ [⟨k, d⟩] }
     callHandler cfg s' ks []
+
+/-- the key presses `_call_handler` delivers for a (tuple of) non-paste key(s): the first one
+    carries the text, the others `""` -/
+def presses : List String → Text → List Press
+  | [], _ => []
+  | k :: ks, d => ⟨k, d⟩ :: presses ks []
 
 /-- `for i in range(len(prefix), 0, -1): match = _get_match(prefix[:i]); if match: … prefix = prefix[i:]; found = True`
     (no `break`: after a hit the loop goes on with the smaller `i` on the shifted prefix) -/
